@@ -16630,7 +16630,11 @@ func (msg *BGPUpdate) DecodeFromBytes(data []byte, options ...*MarshallingOption
 		err = p.DecodeFromBytes(data, options...)
 		if err != nil {
 			e = err.(*MessageError)
-			if e.(*MessageError).SubTypeCode == BGP_ERROR_SUB_ATTRIBUTE_FLAGS_ERROR {
+			// RFC 7606 3.c: wrong flags are treat-as-withdraw, which needs the
+			// prefixes of the message (5.3); those of an MP_REACH_NLRI or
+			// MP_UNREACH_NLRI that failed the flags check were not decoded.
+			mp := p.GetType() == BGP_ATTR_TYPE_MP_REACH_NLRI || p.GetType() == BGP_ATTR_TYPE_MP_UNREACH_NLRI
+			if e.(*MessageError).SubTypeCode == BGP_ERROR_SUB_ATTRIBUTE_FLAGS_ERROR && !mp {
 				e.(*MessageError).ErrorHandling = ERROR_HANDLING_TREAT_AS_WITHDRAW
 			} else {
 				e.(*MessageError).ErrorHandling = getErrorHandlingFromPathAttribute(p.GetType())
